@@ -93,14 +93,36 @@ class Lock:
     def __init__(self, exclusive):
         self.exclusive = exclusive
 
+    """flock on coq/.lock around everything that deletes / rebuilds .vo files (exclusive only).
+    The descriptor is closed in forked children (worker pools), so an orphaned worker can never keep the lock."""
+    _open = set()
+
     def __enter__(self):
-        self.f = open(LOCK, "a+")
-        fcntl.flock(self.f, fcntl.LOCK_EX if self.exclusive else fcntl.LOCK_SH)
+        self.fd = os.open(LOCK, os.O_RDWR | os.O_CREAT | os.O_CLOEXEC, 0o644)
+        Lock._open.add(self.fd)
+        if self.exclusive:
+            fcntl.flock(self.fd, fcntl.LOCK_EX)
         return self
 
     def __exit__(self, *a):
-        fcntl.flock(self.f, fcntl.LOCK_UN)
-        self.f.close()
+        try:
+            if self.exclusive:
+                fcntl.flock(self.fd, fcntl.LOCK_UN)
+        finally:
+            Lock._open.discard(self.fd)
+            os.close(self.fd)
+
+
+def _close_lock_fds_in_child():
+    for fd in list(Lock._open):
+        try:
+            os.close(fd)
+        except OSError:
+            pass
+    Lock._open.clear()
+
+
+os.register_at_fork(after_in_child=_close_lock_fds_in_child)
 
 
 def sh(cmd, cwd=None, timeout=3600, env=None):
@@ -272,6 +294,7 @@ class Run:
             self.proof_ok = False
             done = len(re.findall(r"Closed under the global context|^Axioms:", out, re.M))
             self.cov["discharged"] = min(done, max(len(names) - 1, 0))
+            self.cov["proof_build_failed"] = True
             self.proof_log = out[-4000:]
             self.log("PROOF BUILD FAILED:\n" + out[-2500:])
         tb = self.cov["trusted_base"]
@@ -333,17 +356,19 @@ class Run:
             files.append(path)
         bad = []
         failed = False
-        with Lock(False):
-            procs = []
-            for path in files:
-                cmd = "ulimit -s unlimited 2>/dev/null; timeout %d coqc -q -R %s V -R %s VC -w none %s" % (
-                    timeout, COQ, self.casedir, path)
-                procs.append((path, subprocess.Popen(["bash", "-c", cmd], stdout=subprocess.PIPE,
-                                                     stderr=subprocess.STDOUT, text=True, cwd=self.casedir)))
-                if len(procs) >= 12:
-                    failed |= self._collect(procs, shard, bad, shards)
-                    procs = []
-            failed |= self._collect(procs, shard, bad, shards)
+        # Readers take no lock: after setup the Model/*.vo they import are never rewritten unless a source under
+        # /verif changes; a shard that fails to evaluate (e.g. it raced with a rebuild) is retried once, alone.
+        procs = []
+        self._retry = []
+        for path in files:
+            procs.append((path, self._spawn_coqc(path, timeout)))
+            if len(procs) >= 12:
+                failed |= self._collect(procs, shard, bad, shards, retry=True)
+                procs = []
+        failed |= self._collect(procs, shard, bad, shards, retry=True)
+        for path in self._retry:
+            time.sleep(2)
+            failed |= self._collect([(path, self._spawn_coqc(path, timeout))], shard, bad, shards)
         st = self.cov["streams"].setdefault(stream, {"cases": 0, "disagreements": 0})
         st["cases"] += len(case_terms)
         if failed:
@@ -353,13 +378,22 @@ class Run:
         self.cov["disagreements"] += len(bad)
         return sorted(bad)
 
-    def _collect(self, procs, shard, bad, shards):
+    def _spawn_coqc(self, path, timeout):
+        cmd = "ulimit -s unlimited 2>/dev/null; timeout %d coqc -q -R %s V -R %s VC -w none %s" % (
+            timeout, COQ, self.casedir, path)
+        return subprocess.Popen(["bash", "-c", cmd], stdout=subprocess.PIPE, stderr=subprocess.STDOUT, text=True,
+                                cwd=self.casedir)
+
+    def _collect(self, procs, shard, bad, shards, retry=False):
         failed = False
         for path, p in procs:
             out, _ = p.communicate()
             k = int(re.search(r"_(\d+)\.v$", path).group(1))
             m = re.search(r"VERIF_RESULT\s+(\d+)(?:%N)?\s+(\[[^\]]*\])", out.replace("\n", " "))
             if p.returncode != 0 or not m or int(m.group(1)) != len(shards[k]):
+                if retry:
+                    self._retry.append(path)
+                    continue
                 failed = True
                 self.log("coqc failed on %s:\n%s" % (path, out[-1500:]))
                 self.proof_log += "\ncases file %s did not evaluate:\n%s" % (os.path.basename(path), out[-1500:])
@@ -376,9 +410,8 @@ class Run:
             f.write("From Coq Require Import ZArith List Bool String.\nImport ListNotations.\n")
             f.write(imports + "\nFrom V Require Import Model.CasesLib.\n" + prelude + "\n")
             f.write("Eval vm_compute in (%s).\n" % term)
-        with Lock(False):
-            rc, out = sh("ulimit -s unlimited 2>/dev/null; timeout %d coqc -q -R %s V -w none %s" % (timeout, COQ, path),
-                         cwd=self.casedir, timeout=timeout + 30)
+        rc, out = sh("ulimit -s unlimited 2>/dev/null; timeout %d coqc -q -R %s V -w none %s" % (timeout, COQ, path),
+                     cwd=self.casedir, timeout=timeout + 30)
         return out.strip()[-3000:]
 
     # ---------------- coverage accounting ----------------
@@ -472,7 +505,7 @@ class Run:
             self.log("EVIDENCE DOES NOT VALIDATE:\n" + out[-1200:])
             print("[%s] evidence file invalid" % self.pid, flush=True)
             shutil.rmtree(self.casedir, ignore_errors=True)
-            sys.exit(2)
+            sys.exit(1 if self.violations else 2)
         shutil.rmtree(self.casedir, ignore_errors=True)
         self.log("done: evaluations=%d distinct=%d disagreements=%d violations=%d known=%d wall=%.1fs" % (
             self.cov["evaluations"], len(self._distinct), self.cov["disagreements"], len(self.violations),
